@@ -538,6 +538,201 @@ fn loco_trace_case(ctx: &mut Ctx, r: &mut Rng, steps: usize) {
     ctx.sample("pt.loco_trace", json!({"bel": bel, "accepted_steps": trace.len(), "first_steps": trace.iter().take(4).map(|t| json!([t.0, t.1, t.2])).collect::<Vec<_>>()}));
 }
 
+
+// ---------------------------------------------------------------- hybrid locomotive (C08)
+// The third locomotive type: engine + generator + battery + drivetrain.  Model: lean/Altrios/Hybrid.lean.
+// The fuel / battery split of a step is chosen either as the constant `fuel_res_split` or by the golden-section
+// search (an external optimiser working on clones); the op lines carry the split the implementation ENDED the step
+// with, the model takes it as a parameter (the theorems hold for every split).
+
+pub const HYB_GEN_AUX: f64 = 50e3;
+
+pub fn tok_hybrid(h: &HybridLoco) -> String {
+    format!("{} {} {} {} {}", tok_fc(&h.fc), tok_gen(&h.gen), tok_res(&h.res), tok_edrv(&h.edrv), f(h.fuel_res_split))
+}
+pub fn tok_hloco(l: &Locomotive) -> String {
+    let pt = match &l.loco_type {
+        PowertrainType::HybridLoco(h) => tok_hybrid(h),
+        _ => "unsupported".to_string(),
+    };
+    let s = &l.state;
+    format!(
+        "{} {} {} {} {} {} {} {} {} {} {}",
+        pt, f(s.pwr_out_max.value), f(s.pwr_rate_out_max.value), f(s.pwr_regen_max.value),
+        f(s.pwr_out.value), f(s.pwr_aux.value), f(s.energy_out.value), f(s.energy_aux.value),
+        b(l.assert_limits), f(l.pwr_aux_offset.value), f(l.pwr_aux_traction_coeff.value)
+    )
+}
+fn hyb_of(l: &Locomotive) -> &HybridLoco {
+    match &l.loco_type { PowertrainType::HybridLoco(h) => h, _ => unreachable!() }
+}
+pub fn gen_hloco(r: &mut Rng) -> Locomotive {
+    let mut l = Locomotive::default_hybrid_electric_loco();
+    let fc = gen_fc(r);
+    let gen = gen_gen(r, fc.pwr_out_max.value);
+    let res = gen_res(r);
+    let share = *r.pick(&[0.0, 0.5, 1.0]);
+    let edrv = gen_edrv(r, gen.pwr_out_max.value + res.pwr_out_max.value * share);
+    let split = *r.pick(&[0.0, 0.25, 0.5, 0.5, 0.8, 1.0, 0.37]);
+    // with a cost ratio the split is re-optimised on step 1 and then every `gss_interval` steps
+    let ratio = if r.chance(0.5) { None } else { Some(*r.pick(&[0.5, 1.0, 3.0, 10.0])) };
+    let interval = *r.pick(&[None, Some(1), Some(3), Some(60)]);
+    l.loco_type = PowertrainType::HybridLoco(Box::new(HybridLoco::new(fc, gen, res, edrv, Some(split), ratio, interval)));
+    l.pwr_aux_offset = uc::W * *r.pick(&[0.0, 8554.15, 5.0e4]);
+    l.pwr_aux_traction_coeff = uc::R * *r.pick(&[0.0, 0.000539638, 0.01]);
+    l.set_save_interval(None);
+    l
+}
+
+/// C08 clauses on one accepted hybrid step (implementation only; the model is not consulted)
+fn oracle_hybrid_step(k: &mut Chk, pre: &Locomotive, post: &Locomotive, req: f64, dt: f64, engine_on: Option<bool>) {
+    let (h0, h) = (hyb_of(pre), hyb_of(post));
+    let (e0, e) = (h0.edrv.state, h.edrv.state);
+    let (f0, fc, g0, g, r0, rs) = (h0.fc.state, h.fc.state, h0.gen.state, h.gen.state, h0.res.state, h.res.state);
+    let up = 1.0 + 1e-12;
+    k.req("C08", "hyb_edrv_second_law", e.pwr_loss.value >= 0.0 && e.energy_loss.value >= e0.energy_loss.value
+        && e.eta.value > 0.0 && e.eta.value <= 1.0
+        && (if req > 0.0 { e.pwr_mech_prop_out.value <= e.pwr_elec_prop_in.value * up } else { e.pwr_elec_prop_in.value.abs() <= e.pwr_mech_prop_out.value.abs() * up }),
+        || format!("hybrid edrv: eta {} loss {} mech {} elec {} req {}", e.eta.value, e.pwr_loss.value, e.pwr_mech_prop_out.value, e.pwr_elec_prop_in.value, req));
+    k.req("C08", "hyb_dyn_brake_only_when_braking", e.pwr_mech_dyn_brake.value >= 0.0 && (req < 0.0 || e.pwr_mech_dyn_brake.value == 0.0)
+        && e.energy_mech_dyn_brake.value >= e0.energy_mech_dyn_brake.value && e.energy_elec_dyn_brake.value >= e0.energy_elec_dyn_brake.value,
+        || format!("hybrid dyn brake {} with request {}", e.pwr_mech_dyn_brake.value, req));
+    k.req("C08", "hyb_fc_gen_second_law", fc.pwr_loss.value >= 0.0 && g.pwr_loss.value >= 0.0
+        && fc.energy_loss.value >= f0.energy_loss.value && g.energy_loss.value >= g0.energy_loss.value && fc.energy_fuel.value >= f0.energy_fuel.value
+        && fc.eta.value > 0.0 && fc.eta.value <= 1.0 && g.eta.value > 0.0 && g.eta.value <= 1.0
+        && fc.pwr_brake.value <= fc.pwr_fuel.value * up && g.pwr_elec_prop_out.value + g.pwr_elec_aux.value <= g.pwr_mech_in.value * up,
+        || format!("hybrid fc eta {} loss {} brake {} fuel {}; gen eta {} loss {} out {} in {}", fc.eta.value, fc.pwr_loss.value, fc.pwr_brake.value, fc.pwr_fuel.value,
+            g.eta.value, g.pwr_loss.value, g.pwr_elec_prop_out.value + g.pwr_elec_aux.value, g.pwr_mech_in.value));
+    k.req("C08", "hyb_res_second_law", rs.pwr_loss.value >= 0.0 && rs.energy_loss.value >= r0.energy_loss.value
+        && rs.eta.value > 0.0 && rs.eta.value <= 1.0
+        && (if rs.pwr_out_electrical.value > 0.0 { rs.pwr_out_electrical.value <= rs.pwr_out_chemical.value * up } else { rs.pwr_out_chemical.value.abs() <= rs.pwr_out_electrical.value.abs() * up }),
+        || format!("hybrid res: eta {} loss {} elec {} chem {}", rs.eta.value, rs.pwr_loss.value, rs.pwr_out_electrical.value, rs.pwr_out_chemical.value));
+    // hand-offs inside the unit: what the drivetrain draws is what generator and battery deliver; the engine shaft feeds the generator
+    let sc = h.edrv.pwr_out_max.value.abs().max(req.abs());
+    k.req("C08", "hyb_handoff", close(g.pwr_elec_prop_out.value + rs.pwr_out_propulsion.value, e.pwr_elec_prop_in.value, sc) && fc.pwr_brake.value == g.pwr_mech_in.value,
+        || format!("hybrid: gen prop out {} + res prop {} vs edrv elec in {}; fc brake {} vs gen mech in {}", g.pwr_elec_prop_out.value, rs.pwr_out_propulsion.value, e.pwr_elec_prop_in.value, fc.pwr_brake.value, g.pwr_mech_in.value));
+    // the battery is never asked for more than the discharge limit published for this step, whatever split the optimiser chose
+    if e.pwr_elec_prop_in.value > 0.0 {
+        k.req("C08", "hyb_res_share_le_published", rs.pwr_out_propulsion.value <= rs.pwr_prop_out_max.value,
+            || format!("hybrid: battery share {} above its published limit {} (split {})", rs.pwr_out_propulsion.value, rs.pwr_prop_out_max.value, h.fuel_res_split));
+    }
+    // "a locomotive whose engine is commanded off consumes no fuel and no auxiliary power in that step"
+    if engine_on == Some(false) {
+        k.req("C08", "hyb_engine_off_burns_nothing", fc.pwr_fuel.value == 0.0 && post.state.pwr_aux.value == 0.0 && g.pwr_elec_aux.value == 0.0,
+            || format!("hybrid commanded off still burns fuel: pwr_fuel {} W, generator aux {} W, loco aux {} W (request {} W)", fc.pwr_fuel.value, g.pwr_elec_aux.value, post.state.pwr_aux.value, req));
+    }
+    let _ = dt;
+}
+
+fn hloco_step_real(l: &mut Locomotive, req: f64, dt: f64, on: Option<bool>) -> Option<anyhow::Result<()>> {
+    loco_step_real(l, req, dt, on)
+}
+
+fn hybrid_trace_case(ctx: &mut Ctx, r: &mut Rng, steps: usize) {
+    let mut l = gen_hloco(r);
+    if r.chance(0.15) { l.assert_limits = false; }
+    let gss = hyb_of(&l).fuel_res_ratio.is_some();
+    ctx.count(if gss { "pt.hyb.loco_with_split_search" } else { "pt.hyb.loco_constant_split" });
+    let start = l.clone();
+    let mut trace: Vec<(f64, f64, Option<bool>)> = vec![];
+    for _ in 0..steps {
+        let dt = pick_dt(r);
+        let on = *r.pick(&[None, Some(true), Some(true), Some(false)]);
+        let mut probe = l.clone();
+        let lim_ok = guard(|| { probe.set_pwr_aux(on); probe.set_cur_pwr_max_out(None, uc::S * dt) }).map(|x| x.is_ok()).unwrap_or(false);
+        let (om, rm) = if lim_ok { (probe.state.pwr_out_max.value, probe.state.pwr_regen_max.value) } else { (1.0e6, 0.0) };
+        let rating = hyb_of(&l).edrv.pwr_out_max.value;
+        // traction as often as braking (the split only matters in traction)
+        let mut req = if r.chance(0.4) { pick_req(r, om, rm, rating, false) } else { pick_req(r, om, rm, rating, true) };
+        if on == Some(false) && r.chance(0.8) { req = 0.0; }
+        let pre = l.clone();
+        let mut post = l.clone();
+        let res = hloco_step_real(&mut post, req, dt, on);
+        let split_used = hyb_of(&post).fuel_res_split;
+        let args = format!("{} {} {} {} {} {}", tok_hloco(&pre), f(req), f(dt), opt(&on, |x| b(*x)), f(split_used), f(HYB_GEN_AUX));
+        let a = match &res { None => "panic".to_string(), Some(Err(_)) => "err".to_string(), Some(Ok(())) => format!("ok {}", tok_hloco(&post)) };
+        // on an error the implementation may or may not have run the split search: the model is given the pre-step split then
+        let args = if matches!(res, Some(Ok(()))) { args } else {
+            format!("{} {} {} {} {} {}", tok_hloco(&pre), f(req), f(dt), opt(&on, |x| b(*x)), f(hyb_of(&pre).fuel_res_split), f(HYB_GEN_AUX)) };
+        let searched = split_used != hyb_of(&pre).fuel_res_split;
+        // a rejected step of a searching hybrid: the decision may depend on the split the search would have chosen — not compared
+        let compare = matches!(res, Some(Ok(()))) || !gss;
+        let id = if compare { ctx.op("C08", "hloco_sim_step", &args, &a) } else { ctx.count("pt.hyb.rejected_step_of_searching_unit_not_compared"); format!("h{}", ctx.case_no) };
+        match res {
+            Some(Ok(())) => {
+                ctx.count("pt.hyb.step_ok");
+                ctx.count(if req > 0.0 { "pt.hyb.traction" } else if req < 0.0 { "pt.hyb.braking" } else { "pt.hyb.zero" });
+                if searched { ctx.count("pt.hyb.split_changed_by_search"); }
+                let input = json!({"kind": "hybrid_step", "loco_before": serde_json::to_value(&pre).unwrap(), "pwr_out_req_w": req, "dt_s": dt, "engine_on": on});
+                let mut k = Chk { ctx, case: id.clone(), input };
+                oracle_hybrid_step(&mut k, &pre, &post, req, dt, on);
+                if r.chance(0.3) {
+                    let mut a1 = pre.clone();
+                    a1.set_pwr_aux(on);
+                    ctx.op("C08", "hloco_set_aux", &format!("{} {}", tok_hloco(&pre), opt(&on, |x| b(*x))), &format!("ok {}", tok_hloco(&a1)));
+                    let mut a2 = a1.clone();
+                    let r2 = guard(|| a2.set_cur_pwr_max_out(None, uc::S * dt).map(|_| a2.clone()));
+                    ctx.op("C08", "hloco_set_cur_max", &format!("{} {}", tok_hloco(&a1), f(dt)), &ans(r2, tok_hloco));
+                    let mut a3 = a2.clone();
+                    let r3 = guard(|| a3.solve_energy_consumption(uc::W * req, uc::S * dt, on).map(|_| a3.clone()));
+                    let sp3 = match &r3 { Some(Ok(x)) => hyb_of(x).fuel_res_split, _ => split_used };
+                    ctx.op("C08", "hloco_solve", &format!("{} {} {} {} {}", tok_hloco(&a2), f(req), f(dt), f(sp3), f(HYB_GEN_AUX)), &ans(r3, tok_hloco));
+                    // the interval handed to the search, recomputed from the state the search sees
+                    let (hh, ee) = (hyb_of(&a2), &hyb_of(&post).edrv.state);
+                    if ee.pwr_elec_prop_in.value > 0.0 {
+                        let pin = ee.pwr_elec_prop_in.value;
+                        let lo = (1.0 - hh.res.state.pwr_prop_out_max.value / pin).clamp(0.0, 1.0);
+                        let hi = (hh.gen.state.pwr_elec_prop_out_max.value / pin).clamp(0.0, 1.0);
+                        ctx.op("C08", "hyb_gss_bounds", &format!("{} {} {}", f(hh.res.state.pwr_prop_out_max.value), f(hh.gen.state.pwr_elec_prop_out_max.value), f(pin)),
+                            &format!("ok {} {}", f(lo), f(hi)));
+                        // when the search ran in this step its answer lies in the interval it was given (or is the mean of a narrow one)
+                        if searched {
+                            ctx.checked("C08", "hyb_split_within_search_interval");
+                            if !(split_used >= lo.min(hi) - 1e-12 && split_used <= hi.max(lo) + 1e-12) {
+                                ctx.fail("C08", "hyb_split_within_search_interval", &id, format!("split {} outside [{}, {}]", split_used, lo, hi), json!({"loco_before": serde_json::to_value(&pre).unwrap(), "pwr_out_req_w": req, "dt_s": dt}));
+                            }
+                        }
+                    }
+                }
+                l = post;
+                LocoTrait::step(&mut l);
+                trace.push((req, dt, on));
+                if soc_outside_window_res(&hyb_of(&l).res) { ctx.count("pt.hyb.trace_stopped_soc_outside_window"); break; }
+            }
+            Some(Err(_)) => { ctx.count("pt.hyb.step_err"); }
+            None => {
+                ctx.count("pt.hyb.step_panic");
+                if hyb_of(&pre).res.state.soc.value.is_finite() {
+                    ctx.count("pt.hyb.step_panic_observed");
+                }
+            }
+        }
+    }
+    // whole-run tie: the crate's own LocomotiveSimulation::walk on the accepted trace
+    if !trace.is_empty() {
+        let mut t = 0.0;
+        let mut time = vec![0.0];
+        let mut pwr = vec![0.0];
+        let mut eon = vec![None];
+        for (req, dt, on) in &trace { t += dt; time.push(t); pwr.push(*req); eon.push(*on); }
+        let pt = PowerTrace::new(time, pwr, eon);
+        let mut sim = LocomotiveSimulation::new(start.clone(), pt, None);
+        let ok = guard(|| sim.walk()).map(|x| x.is_ok()).unwrap_or(false);
+        ctx.checked("C08", "hyb_manual_driving_equals_walk");
+        let exact = trace.iter().all(|(_, dt, _)| (*dt * 2.0).fract() == 0.0);
+        if exact && (!ok || sim.loco_unit.state != l.state || sim.loco_unit.loco_type != l.loco_type) {
+            ctx.fail("C08", "hyb_manual_driving_equals_walk", "walk", "LocomotiveSimulation::walk of a hybrid differs from the snapshot-stepped run".into(),
+                json!({"kind": "hybrid_trace", "loco": serde_json::to_value(&start).unwrap(), "trace": trace.iter().map(|t| json!([t.0, t.1, t.2])).collect::<Vec<_>>()}));
+        }
+    }
+    ctx.sample("pt.hybrid_trace", json!({"split_search": gss, "accepted_steps": trace.len(), "first_steps": trace.iter().take(4).map(|t| json!([t.0, t.1, t.2])).collect::<Vec<_>>()}));
+}
+
+fn soc_outside_window_res(res: &ReversibleEnergyStorage) -> bool {
+    let s = res.state.soc.value;
+    !(s >= res.min_soc.value && s <= res.max_soc.value)
+}
+
 /// the battery left its SOC window (only possible outside the step-size domain H_dt): what
 /// follows is outside the properties' domain, the trace stops there
 fn soc_outside_window(l: &Locomotive) -> bool {
@@ -829,4 +1024,6 @@ pub fn run(ctx: &mut Ctx, r: &mut Rng, tier: &str) {
     for _ in 0..nl { let mut rr = r.fork(); loco_trace_case(ctx, &mut rr, steps); }
     for i in 0..nc { let mut rr = r.fork(); consist_trace_case(ctx, &mut rr, steps, if tier == "thorough" && i % 3 == 0 { 8 } else { 5 }); }
     for _ in 0..ncomp { let mut rr = r.fork(); component_case(ctx, &mut rr); }
+    // hybrids last, so that the random streams of the cases above are those of earlier runs
+    for _ in 0..nl { let mut rr = r.fork(); hybrid_trace_case(ctx, &mut rr, steps); }
 }
